@@ -1054,7 +1054,7 @@ package mcp
 // exchange delivers nothing and does not advance its event index; in SSE mode exactly one event is written to the
 // attached exchange, carrying the given data and event id, and the index advances by one; a stream whose requests
 // are all answered releases its exchange (closes done) exactly once.
-//@ func (*stream).deliverLocked [C08, C10]
+//@ func (*stream).deliverLocked [C08, C10, C02]
 //@   holds stmu s
 //@   track writeEvent as emit
 //@   requires s != nil && (s.done != nil ==> s.w != nil)
@@ -1068,6 +1068,21 @@ package mcp
 //@   ensures @finished-stream-releases-its-exchange result.0 && old(s.done) != nil ==> s.done == nil && closed(old(s.done))
 //@   ensures @unfinished-stream-stays-attached !result.0 ==> s.done == old(s.done)
 //@   ensures @writer-untouched s.w == old(s.w)
+// application/json reply mode (pendingJSONMessages != nil): every message handed over is buffered, in order, behind
+// the ones before it; nothing is written until the last request of the POST is answered, and then the reply is
+// written once and holds every buffered message including this one (the bare message when it is the only one).
+//@   track json.Marshal as encodeAll
+//@   track s.w.Write as out
+//@   ensures @json-mode-buffers-every-message old(s.done) != nil && overrideStatus == 0 && old(s.pendingJSONMessages) != nil ==> calls(emit) == 0
+//@        && len(s.pendingJSONMessages) == old(len(s.pendingJSONMessages)) + 1
+//@   ensures @json-mode-keeps-the-buffer-in-order old(s.done) != nil && overrideStatus == 0 && old(s.pendingJSONMessages) != nil && !result.0 ==> s.pendingJSONMessages[old(len(s.pendingJSONMessages))] == data
+//@        && (forall i int :: {absElem(s.pendingJSONMessages, off(s.pendingJSONMessages) + i)} 0 <= i && i < old(len(s.pendingJSONMessages)) ==> s.pendingJSONMessages[i] == old(s.pendingJSONMessages[i]))
+//@   assert at call json.Marshal: @the-reply-is-encoded-from-the-whole-buffer len(s.pendingJSONMessages) == old(len(s.pendingJSONMessages)) + 1 && s.pendingJSONMessages[old(len(s.pendingJSONMessages))] == data
+//@        && (forall i int :: {absElem(s.pendingJSONMessages, off(s.pendingJSONMessages) + i)} 0 <= i && i < old(len(s.pendingJSONMessages)) ==> s.pendingJSONMessages[i] == old(s.pendingJSONMessages[i]))
+//@   ensures @json-mode-replies-exactly-when-the-last-request-is-answered old(s.done) != nil && overrideStatus == 0 && old(s.pendingJSONMessages) != nil ==> calls(out) <= 1 && (calls(out) == 1 ==> result.0) && (result.0 && result.1 == nil ==> calls(out) == 1)
+//@   ensures @a-json-reply-holds-every-buffered-message old(s.done) != nil && overrideStatus == 0 && old(s.pendingJSONMessages) != nil && calls(out) == 1 ==>
+//@        (old(len(s.pendingJSONMessages)) == 0 ==> callArg(out, 1, 1) == data && calls(encodeAll) == 0)
+//@        && (old(len(s.pendingJSONMessages)) > 0 ==> calls(encodeAll) == 1 && callArg(encodeAll, 1, 0) == iface(s.pendingJSONMessages) && callArg(out, 1, 1) == callResult(encodeAll, 1, 0))
 
 // close / release: the two ways an exchange lets go of a stream.
 //@ func (*stream).close [C08, C10]
